@@ -6,6 +6,14 @@ use std::{thread, time};
 use crate::bo::*;
 use crate::configuration::NUN_ELECTION_TIMEOUT;
 
+fn election_sleep(ms: u64, _site: &'static str) {
+    #[cfg(nundb_verif)]
+    if crate::verif_hooks::election_wait(_site) {
+        return;
+    }
+    thread::sleep(time::Duration::from_millis(ms));
+}
+
 pub fn start_inital_election(dbs: Arc<Databases>) {
     log::info!("will run start_inital_election in 1s");
     thread::sleep(time::Duration::from_millis(1000));
@@ -37,7 +45,7 @@ pub fn start_election(dbs: &Arc<Databases>) {
              */
             while opp.is_none() && start_time < *NUN_ELECTION_TIMEOUT {
                 log::debug!("Waiting for opp to be registered");
-                thread::sleep(time::Duration::from_millis(2));
+                election_sleep(2, "register");
                 start_time = start_time + 2;
                 opp = dbs.get_pending_opp_copy(id);
             }
@@ -56,7 +64,7 @@ pub fn start_election(dbs: &Arc<Databases>) {
                     log::info!("No longer eligible to be primary, will stop election");
                     return;
                 }
-                thread::sleep(time::Duration::from_millis(2));
+                election_sleep(2, "acks");
                 start_time = start_time + 2;
                 opp = dbs.get_pending_opp_copy(id);
                 match opp {
@@ -79,7 +87,7 @@ pub fn start_election(dbs: &Arc<Databases>) {
 
             log::info!("Election acks received");
 
-            thread::sleep(time::Duration::from_millis(100)); // Will wait for the ack
+            election_sleep(100, "final"); // Will wait for the ack
             if dbs.is_eligible() {
                 log::info!("winning the election");
                 election_win(&dbs);
